@@ -30,7 +30,7 @@ from lxml import html
 from lxml.builder import E
 
 from spyne.protocol.soap.soap11 import Soap11
-from spyne.protocol.xml import _append
+from spyne.protocol.xml import _append, _xml_text
 from spyne.util.six import string_types
 from spyne.util.etreeconv import dict_to_etree
 from spyne.const.xml import NS_SOAP12_ENV, NS_XML, PREFMAP
@@ -86,13 +86,15 @@ class Soap12(Soap11):
 
     def fault_to_parent(self, ctx, cls, inst, parent, ns, **_):
         reason = E("{%s}Reason" % self.ns_soap_env)
-        reason.append(E("{%s}Text" % self.ns_soap_env, inst.faultstring,
+        reason.append(E("{%s}Text" % self.ns_soap_env,
+                        _xml_text(inst.faultstring),
                         **{'{%s}lang' % NS_XML: inst.lang}))
 
         subelts = [
             None,  # The code tag is put here down the road
             reason,
-            E("{%s}Role" % self.ns_soap_env, inst.faultactor or ""),
+            E("{%s}Role" % self.ns_soap_env,
+                                            _xml_text(inst.faultactor or "")),
         ]
 
         return self._fault_to_parent_impl(ctx, cls, inst, parent, ns, subelts)
@@ -145,7 +147,8 @@ class Soap12(Soap11):
         subelts = [
             None,  # The code tag is put here down the road
             reason,
-            E("{%s}Role" % self.ns_soap_env, inst.faultactor or ""),
+            E("{%s}Role" % self.ns_soap_env,
+                                            _xml_text(inst.faultactor or "")),
         ]
 
         return self._fault_to_parent_impl(ctx, cls, inst, parent, ns, subelts)
